@@ -89,9 +89,10 @@ impl MemResizable for HeapMem {
                         // mul carefully, to prevent overflow.
                         let new_mem_size = self.element_layout.size()
                             .checked_mul(new_size).unwrap();
-                        let new_mem_layout = Layout::from_size_align_unchecked(
+                        // Checked: the total size must not exceed isize::MAX.
+                        let new_mem_layout = Layout::from_size_align(
                             new_mem_size, self.element_layout.align()
-                        );
+                        ).expect("capacity overflow");
 
                         if self.size == 0 {
                             // allocate
